@@ -165,6 +165,9 @@ def _canon(neg: bool, a: str, op: str, b: str) -> tuple[bool, str, str, str]:
     if op in ("CEq", "CNe"):
         if neg:
             neg, op = False, ("CNe" if op == "CEq" else "CEq")
+        # symmetric: the operand that mentions the target range first
+        if ("Tgt" not in a and "Tgt" in b) or (("Tgt" in a) == ("Tgt" in b) and b < a):
+            a, b = b, a
         return neg, a, op, b
     if op in ("CGe", "CGt"):                  # a >= b  ==  b <= a
         a, b, op = b, a, ("CLe" if op == "CGe" else "CLt")
@@ -1302,6 +1305,44 @@ def _class(tree, name):
     return next((n for n in ast.walk(tree) if isinstance(n, ast.ClassDef) and n.name == name), None)
 
 
+def _canon_order(rows: list[str]) -> list[str]:
+    """Guards that cannot raise anything but their ValueError commute (each is a pure test; the function rejects iff one
+    of them fires; which message is shown is not a property-relevant observable): runs of such rows are put in one fixed
+    order — rows, columns, `readout_times is None`, times; within a dimension `0 <= start`, `start <= stop`, `stop <= size`,
+    then the rest by text.  A row that may raise TypeError / AttributeError (raw end points that may be None, the time
+    component before `readout_times is None` was ruled out, anything under `PBoth3D`) stays where it is and separates
+    the runs."""
+    import re
+
+    def total(g, none_seen):
+        if g.startswith("GNone"):
+            return True
+        if "PBoth3D" in g or "EStart" in g.replace("ERStart", "") or "EStop" in g.replace("ERStop", ""):
+            return False
+        if "DTime" in g or "BTimes" in g:
+            return none_seen
+        return True
+
+    def key(g):
+        if g.startswith("GNone"):
+            return (2, 0, g)
+        dim = 3 if ("DTime" in g or "BTimes" in g) else (0 if "DRow" in g else 1 if "DCol" in g else 4)
+        shape = re.sub(r"D(Row|Col|Time)|B(Rows|Cols|Times)", "_", g)
+        order = ["GCmp PAlways true (EConst 0) CLe (ERStart Tgt _ _)",
+                 "GCmp PAlways true (ERStart Tgt _ _) CLe (ERStop Tgt _ _)",
+                 "GCmp PAlways true (ERStop Tgt _ _) CLe (EBound _)"]
+        return (dim, order.index(shape) if shape in order else 9, g)
+    out, run, none_seen = [], [], False
+    for g in rows:
+        if total(g, none_seen):
+            run.append(g)
+        else:
+            out += sorted(run, key=key) + [g]
+            run = []
+        none_seen = none_seen or g == "GNone BTimes"
+    return out + sorted(run, key=key)
+
+
 def _norm_guard_fn(tree, fn, cls_name=None):
     resolve = _resolver(tree, _class(tree, cls_name) if cls_name else None, UTIL_KEEP)
     fn = norm.match_to_if(norm.Inliner(resolve).function(fn))
@@ -1365,6 +1406,7 @@ def translate(repo: Path) -> str:
         fail(f3, "FitRange3D.check signature")
     c2 = _guards(_norm_guard_fn(tree, f2, "FitRange2D"), {"self": "Tgt"}, allow_pre=False, helpers=helpers)
     c3 = _guards(_norm_guard_fn(tree, f3, "FitRange3D"), {"self": "Tgt"}, allow_pre=False, helpers=helpers, is_3d=True)
+    og, c2, c3 = _canon_order(og), _canon_order(c2), _canon_order(c3)
     fit_tree = _norm_fit_tree(parse(repo, REL_FIT))
     single, multi = _call_sites(fit_tree)
     return render(og, c2, c3, single, multi, target_first, _weights_conf(fit_tree), _fitness_desc(fit_tree))
